@@ -21,7 +21,7 @@ RULE = ('cases are histories of 3-8 signing operations, each followed by a contr
         'peer\'s view of signer/hash input/integers changed) reached PGPKey.verify and its verdict was compared with the '
         'ledger; distinct = distinct (signature kind, fault kind) multisets among non-trivial runs')
 TIERS = {'quick': {'runs': 3000, 'budget_s': 80}, 'thorough': {'runs': 250000, 'budget_s': 1500}}
-PROBES = ('str_subject_with_lone_surrogate', 'issuer_rewrite_to_encryption_subkey', 'control_verified', 'ledger_entry_not_ref_valid', 'control_failed', 'nonsemantic_skipped', 'mutant_rejected_raise', 'mutant_rejected_falsy',
+PROBES = ('backsig_replayed_under_other_primary', 'str_subject_with_lone_surrogate', 'issuer_rewrite_to_encryption_subkey', 'control_verified', 'ledger_entry_not_ref_valid', 'control_failed', 'nonsemantic_skipped', 'mutant_rejected_raise', 'mutant_rejected_falsy',
           'ref_unparsable_skipped', 'splice_cross_history', 'issuer_rewrite', 'subkey_signer', 'msg_multi_signer',
           'verifier_behind_signer', 'sig_expired_at_verify')
 FAULTS = ('sig_mpi_widen', 'sig_flip_hdr', 'sig_flip_hlen', 'sig_flip_hashed', 'sig_flip_mpi', 'sig_type', 'sig_halg', 'sig_pkalg', 'issuer_rewrite',
@@ -490,10 +490,56 @@ def execute(case, ctx):
             mut, definitely = r
             ctx.fault(d['fault'])
             _deliver(w, art, mut, definitely, d, step, ledger, ctx, pairs)
+        if step['kind'] == 'bind' and art.sig is not None:
+            _backsig_replay(w, art, step, case, ctx, pairs)
         history.append(art)
         ctx.event(step['id'], 'sign', step['kind'], len(step.get('deliveries', [])))
     if pairs:
         ctx.mark_nontrivial(','.join(sorted(pairs)))
+
+
+def _backsig_replay(w, art, step, case, ctx, pairs):
+    """A signing subkey's embedded primary-key-binding signature (0x19) replayed under another primary key: the reference peer
+    builds that other key, binds the same subkey to it with a valid 0x18 of its own and embeds the old 0x19, which was made over
+    the first primary.  Nothing about that subkey may verify as a whole under the new primary."""
+    from ..ref import keys as rkeys
+    from ..ref.wire import encode_subpacket, split_subpackets
+    from .c05 import make_ref_key
+    try:
+        outer = rsigs.parse_sig(split_packets(art.sig)[0].body)
+        embs = [sp.body for sp in split_subpackets(outer.unhashed) if sp.type == 32] + [sp.body for sp in split_subpackets(outer.hashed) if sp.type == 32]
+        subpkt = [p for p in split_packets(art.subject['keybytes']) if p.tag == 14 and rkeys.parse_pub(p.body).fingerprint == art.subject['subfp']]
+    except (WireError, KeyError, IndexError):
+        return
+    if not embs or not subpkt:
+        return
+    spub = rkeys.parse_pub(subpkt[0].body)
+    created = 1_500_000_000
+    mb, malg, msec = make_ref_key('ed25519', created, b'', case['run_seed'], label='mallory' + step['id'])
+    mpub = rkeys.parse_pub(mb)
+    base = bridge.build_ref_tkey(mb, malg, msec, b'Mallory <m@example.org>', created)
+    h = rsigs.sp_created(created + 10) + rsigs.sp_keyflags(0x02) + rsigs.sp_issuer_fpr(mpub.fingerprint)
+    uh = rsigs.sp_issuer(mpub.keyid) + encode_subpacket(32, embs[0])
+    blob = base + encode_packet(14, subpkt[0].body) + encode_packet(2, rsigs.sign(0x18, mpub, msec, 8, h, uh, rsigs.subject_subkey(mpub, spub)))
+    ctx.fault('backsig_replay')
+    ctx.checked()
+    ctx.probe('backsig_replayed_under_other_primary')
+    pairs.append('bind/backsig_replay')
+    try:
+        with watchdog(30):
+            K = w.pgpy.PGPKey.from_blob(blob)[0]
+            sk = list(K.subkeys.values())[0]
+            res = K.verify(sk)
+            truthy, ngood, nbad = bool(res), len(list(res.good_signatures)), len(list(res.bad_signatures))
+    except CallTimeout:
+        return
+    except Exception:
+        ctx.probe('mutant_rejected_raise')
+        return
+    if truthy and nbad == 0 and ngood >= 2:
+        ctx.viol('C01:accepted:backsig_replay:bind', 'a primary-key-binding signature made for one primary key is listed as good for the same subkey under '
+                 'another primary key (verify(subkey): %d good, none bad)' % ngood)
+    ctx.probe('mutant_rejected_falsy')
 
 
 def _deliver(w, art, mut, definitely, d, step, ledger, ctx, pairs):
